@@ -202,8 +202,22 @@ func (w *Wrapped) Reopen() error {
 func (w *Wrapped) Type() eventlogger.NodeType { return w.Inner.Type() }
 func (w *Wrapped) Unwrap() eventlogger.Node   { return w.Inner }
 
+// Decorator is a wrapper with a Close of its own (Closer and NodeUnwrapper at once): the node the Broker
+// has to close is the decorator, once; what it wraps is the decorator's business (it does not delegate, so a
+// Close that reaches the inner Closer as well shows up as a second close of the same model node).
+type Decorator struct{ Wrapped }
+
+func (d *Decorator) Close(ctx context.Context) error {
+	d.Outer.Closes.Add(1)
+	if d.Outer.CloseFails {
+		return ErrClose
+	}
+	return nil
+}
+
 // Wrap returns the eventlogger.Node to register for n: style 0,1 = the node as a
-// Closer, 2 = Closer behind one Unwrap, 3 = behind two, 4 = not a Closer at all.
+// Closer, 2 = Closer behind one Unwrap, 3 = behind two, 4 = not a Closer at all,
+// 5 = a Closer that also unwraps to another Closer.
 func Wrap(n *Node, style int) (node eventlogger.Node, observableClose bool) {
 	switch style {
 	case 2:
@@ -214,6 +228,9 @@ func Wrap(n *Node, style int) (node eventlogger.Node, observableClose bool) {
 		return &Wrapped{Inner: &Wrapped{Inner: &Closer{n}}, Outer: n}, true
 	case 4:
 		return n, false
+	case 5:
+		n.IsWrapped = true
+		return &Decorator{Wrapped{Inner: &Closer{n}, Outer: n}}, true
 	default:
 		return &Closer{n}, true
 	}
